@@ -1,1 +1,1160 @@
-fn main() {}
+//! C13 harness: the real `CardanoChainDataImporter` (BlocksTransactionsImporter + BlockRangeImporter)
+//! over the real `ChainReaderBlockStreamer` / `CardanoBlockScanner`, fed by a chain-sync-faithful
+//! simulator of the public `ChainBlockReader` trait, storing into the real sqlite
+//! `CardanoTransactionRepository` (file database) through the signer's own `ChainDataStore`
+//! wrapper (compiled from /repo by `#[path]`).
+//!
+//! K: one request per history — the replies the real streamer consumed during each import, restarts
+//!    and prunings — and the trace (resume point, store calls, class letter, store checksum after every
+//!    step, full store dump at the end) compared with the Lean model `Import.*`.
+//! S: (1) store and roots equal those of the real importer run ONCE FROM SCRATCH on the simulator's
+//!    canonical chain up to the same target; (2) the signable builders' Merkle root for a beacon does
+//!    not depend on how far beyond it the node imported; failures are tagged with the class computed
+//!    from the history.
+use async_trait::async_trait;
+use blake2::{Blake2s256, Digest};
+use hutil::{Args, Rng, Sink};
+use mithril_cardano_node_chain::chain_importer::{CardanoChainDataImporter, ChainDataImporter, ChainDataPruner, ChainDataStore};
+use mithril_cardano_node_chain::chain_reader::ChainBlockReader;
+use mithril_cardano_node_chain::chain_scanner::CardanoBlockScanner;
+use mithril_cardano_node_chain::entities::{ChainBlockNextAction, RawCardanoPoint, ScannedBlock};
+use mithril_common::crypto_helper::{MKTreeNode, MKTreeStoreInMemory};
+use mithril_common::entities::{
+    BlockNumber, BlockNumberOffset, BlockRange, CardanoBlockTransactionMkTreeNode, CardanoBlockWithTransactions, CardanoTransaction,
+    ChainPoint, ProtocolMessagePartKey, SlotNumber,
+};
+use mithril_common::signable_builder::{
+    BlockRangeRootRetriever, BlocksTransactionsImporter, CardanoBlocksTransactionsSignableBuilder, CardanoTransactionsSignableBuilder,
+    LegacyBlockRangeRootRetriever, SignableBuilder, TransactionsImporter,
+};
+use mithril_common::StdResult;
+use mithril_persistence::database::cardano_transaction_migration;
+use mithril_persistence::sqlite::{ConnectionBuilder, ConnectionOptions};
+use std::collections::{BTreeMap, BTreeSet};
+use std::fmt::Write as _;
+use std::ops::Range;
+use std::path::{Path, PathBuf};
+use std::sync::atomic::{AtomicBool, AtomicU64, Ordering};
+use std::sync::{Arc, Mutex};
+
+// the signer's production wrapper of the repository (ChainDataStore / pruner / root retrievers)
+#[allow(dead_code)]
+#[path = "/repo/mithril-signer/src/database/repository/cardano_transaction_repository.rs"]
+mod signer_repo;
+use signer_repo::SignerCardanoChainDataRepository;
+
+fn logger() -> slog::Logger {
+    slog::Logger::root(slog::Discard, slog::o!())
+}
+
+static QUIET: AtomicBool = AtomicBool::new(false);
+static DB_COUNTER: AtomicU64 = AtomicU64::new(0);
+
+// ------------------------------------------------------------------------------------------ blocks
+
+#[derive(Clone, Debug, PartialEq, Eq)]
+struct Blk {
+    id: u32,
+    number: u64,
+    slot: u64,
+    ntx: u8,
+}
+
+fn hash_bytes(id: u32) -> Vec<u8> {
+    id.to_be_bytes().to_vec()
+}
+#[allow(dead_code)]
+fn hash_hex(id: u32) -> String {
+    format!("{:08x}", id)
+}
+fn tx_name(id: u32, k: u8) -> String {
+    format!("t{}x{}", id, k)
+}
+fn scanned(b: &Blk) -> ScannedBlock {
+    ScannedBlock::new(hash_bytes(b.id), BlockNumber(b.number), SlotNumber(b.slot), (0..b.ntx).map(|k| tx_name(b.id, k)).collect::<Vec<_>>())
+}
+
+// --------------------------------------------------------------------------------------- simulator
+
+#[derive(Clone, Debug)]
+enum Mutation {
+    /// append blocks to the tip
+    Grow(Vec<Blk>),
+    /// chain switch: keep the first `keep` blocks, then the new ones
+    Switch { keep: usize, blocks: Vec<Blk> },
+}
+
+#[derive(Clone, Debug, PartialEq)]
+enum Reply {
+    Fwd(Blk),
+    /// roll-back point: slot and block id (None = origin)
+    Back(u64, Option<u32>),
+    Nothing,
+}
+
+struct Conn {
+    /// index in `chain` of the last block this connection was told about; -1 = origin
+    ptr: isize,
+    /// the next reply is a roll-back to `ptr`
+    pending: bool,
+    /// the last reply was `Await`: the client has no agency
+    awaiting: bool,
+}
+
+/// Chain-sync producer (one Cardano node, one client): the node's current chain, the per-connection
+/// read pointer, `FindIntersect` (found: pointer := point, next reply RollBackward(point); not found:
+/// nothing changes), `RequestNext` (pending roll-back, else next block, else Await).
+struct Sim {
+    chain: Vec<Blk>,
+    conn: Option<Conn>,
+    /// pallas: `set_chain_point` does nothing while the client has no agency (after an Await)
+    await_sem: bool,
+    // recording, per import
+    replies: Vec<Reply>,
+    set_points: Vec<(u64, Option<u32>)>,
+    schedule: Vec<(usize, Mutation)>,
+}
+
+impl Sim {
+    fn new(chain: Vec<Blk>, await_sem: bool) -> Sim {
+        Sim { chain, conn: None, await_sem, replies: vec![], set_points: vec![], schedule: vec![] }
+    }
+    fn apply(&mut self, m: &Mutation) {
+        match m {
+            Mutation::Grow(bs) => self.chain.extend(bs.iter().cloned()),
+            Mutation::Switch { keep, blocks } => {
+                self.chain.truncate(*keep);
+                self.chain.extend(blocks.iter().cloned());
+                if let Some(c) = self.conn.as_mut() {
+                    if c.ptr >= *keep as isize {
+                        c.ptr = *keep as isize - 1;
+                        c.pending = true;
+                    }
+                }
+            }
+        }
+    }
+    fn connect(&mut self) {
+        if self.conn.is_none() {
+            // a new follower starts at the origin and is first told to roll back to it
+            self.conn = Some(Conn { ptr: -1, pending: true, awaiting: false });
+        }
+    }
+    fn point(&self, idx: isize) -> (u64, Option<u32>) {
+        if idx < 0 {
+            (0, None)
+        } else {
+            let b = &self.chain[idx as usize];
+            (b.slot, Some(b.id))
+        }
+    }
+    fn set_point(&mut self, slot: u64, hash: &[u8]) {
+        let id = if hash.len() == 4 { Some(u32::from_be_bytes([hash[0], hash[1], hash[2], hash[3]])) } else { None };
+        self.set_points.push((slot, id));
+        self.connect();
+        let await_sem = self.await_sem;
+        let found: Option<isize> = if hash.is_empty() && slot == 0 {
+            Some(-1)
+        } else {
+            self.chain.iter().position(|b| b.slot == slot && Some(b.id) == id).map(|i| i as isize)
+        };
+        let c = self.conn.as_mut().unwrap();
+        if c.awaiting && await_sem {
+            return;
+        }
+        if let Some(i) = found {
+            c.ptr = i;
+            c.pending = true;
+        }
+    }
+    fn next(&mut self) -> Reply {
+        // the chain moves while the client reads
+        let n = self.replies.len();
+        let due: Vec<Mutation> = self.schedule.iter().filter(|(k, _)| *k == n).map(|(_, m)| m.clone()).collect();
+        self.schedule.retain(|(k, _)| *k != n);
+        for m in due {
+            self.apply(&m);
+        }
+        self.connect();
+        let len = self.chain.len() as isize;
+        let c = self.conn.as_mut().unwrap();
+        let r = if c.pending {
+            c.pending = false;
+            c.awaiting = false;
+            let idx = c.ptr;
+            let (s, id) = self.point(idx);
+            Reply::Back(s, id)
+        } else if c.ptr + 1 < len {
+            c.ptr += 1;
+            c.awaiting = false;
+            Reply::Fwd(self.chain[c.ptr as usize].clone())
+        } else {
+            c.awaiting = true;
+            Reply::Nothing
+        };
+        self.replies.push(r.clone());
+        r
+    }
+}
+
+struct Reader {
+    sim: Arc<Mutex<Sim>>,
+}
+
+#[async_trait]
+impl ChainBlockReader for Reader {
+    async fn set_chain_point(&mut self, point: &RawCardanoPoint) -> StdResult<()> {
+        self.sim.lock().unwrap().set_point(*point.slot_number, &point.block_hash);
+        Ok(())
+    }
+    async fn get_next_chain_block(&mut self) -> StdResult<Option<ChainBlockNextAction>> {
+        Ok(match self.sim.lock().unwrap().next() {
+            Reply::Fwd(b) => Some(ChainBlockNextAction::RollForward { parsed_block: scanned(&b) }),
+            Reply::Back(slot, id) => Some(ChainBlockNextAction::RollBackward {
+                rollback_point: RawCardanoPoint::new(SlotNumber(slot), id.map(hash_bytes).unwrap_or_default()),
+            }),
+            Reply::Nothing => None,
+        })
+    }
+}
+
+// ------------------------------------------------------------------------------------- real store
+
+/// decorator recording the calls the importer makes on the real store
+struct Recorder {
+    inner: Arc<SignerCardanoChainDataRepository>,
+    ops: Mutex<Vec<String>>,
+    /// per roll-back: (slot, lowest stored slot before, anchor block number)
+    rollbacks: Mutex<Vec<(u64, Option<u64>, Option<u64>)>>,
+}
+
+#[async_trait]
+impl ChainDataStore for Recorder {
+    async fn get_highest_beacon(&self) -> StdResult<Option<ChainPoint>> {
+        self.inner.get_highest_beacon().await
+    }
+    async fn get_highest_block_range(&self) -> StdResult<Option<BlockRange>> {
+        self.inner.get_highest_block_range().await
+    }
+    async fn get_highest_legacy_block_range(&self) -> StdResult<Option<BlockRange>> {
+        self.inner.get_highest_legacy_block_range().await
+    }
+    async fn store_blocks_and_transactions(&self, b: Vec<CardanoBlockWithTransactions>) -> StdResult<()> {
+        self.ops.lock().unwrap().push(format!("s{}", b.len()));
+        self.inner.store_blocks_and_transactions(b).await
+    }
+    async fn get_blocks_and_transactions_in_range(&self, range: Range<BlockNumber>) -> StdResult<BTreeSet<CardanoBlockTransactionMkTreeNode>> {
+        self.inner.get_blocks_and_transactions_in_range(range).await
+    }
+    async fn get_transactions_in_range(&self, range: Range<BlockNumber>) -> StdResult<Vec<CardanoTransaction>> {
+        self.inner.get_transactions_in_range(range).await
+    }
+    async fn store_block_range_roots(&self, r: Vec<(BlockRange, MKTreeNode)>) -> StdResult<()> {
+        self.inner.store_block_range_roots(r).await
+    }
+    async fn store_legacy_block_range_roots(&self, r: Vec<(BlockRange, MKTreeNode)>) -> StdResult<()> {
+        self.inner.store_legacy_block_range_roots(r).await
+    }
+    async fn remove_rolled_chain_data_and_block_range(&self, slot: SlotNumber) -> StdResult<()> {
+        let blocks = self.inner.get_all_blocks().await?;
+        let lowest = blocks.iter().map(|b| *b.slot_number).min();
+        let anchor = blocks.iter().filter(|b| *b.slot_number <= *slot).map(|b| *b.block_number).max();
+        self.rollbacks.lock().unwrap().push((*slot, lowest, anchor));
+        self.ops.lock().unwrap().push(format!("r{}", *slot));
+        self.inner.remove_rolled_chain_data_and_block_range(slot).await
+    }
+    async fn optimize(&self) -> StdResult<()> {
+        self.inner.optimize().await
+    }
+}
+
+/// the importer as the signable builders see it
+struct ImporterAdapter(Arc<CardanoChainDataImporter>);
+#[async_trait]
+impl BlocksTransactionsImporter for ImporterAdapter {
+    async fn import(&self, up_to: BlockNumber) -> StdResult<()> {
+        self.0.import(up_to).await
+    }
+}
+#[async_trait]
+impl TransactionsImporter for ImporterAdapter {
+    async fn import(&self, up_to: BlockNumber) -> StdResult<()> {
+        self.0.import(up_to).await
+    }
+}
+struct NoImport;
+#[async_trait]
+impl BlocksTransactionsImporter for NoImport {
+    async fn import(&self, _: BlockNumber) -> StdResult<()> {
+        Ok(())
+    }
+}
+#[async_trait]
+impl TransactionsImporter for NoImport {
+    async fn import(&self, _: BlockNumber) -> StdResult<()> {
+        Ok(())
+    }
+}
+
+#[derive(Clone, Debug, Default, PartialEq)]
+struct Dump {
+    /// (id, number, slot) ordered by number
+    blocks: Vec<(u32, u64, u64)>,
+    /// (tx name, block id) ordered by (block number, name)
+    txs: Vec<(String, u32)>,
+    roots: Vec<(u64, u64, String)>,
+    legacy: Vec<(u64, u64, String)>,
+}
+
+impl Dump {
+    fn text(&self) -> String {
+        let mut s = String::from("B[");
+        for (i, b) in self.blocks.iter().enumerate() {
+            let _ = write!(s, "{}({},{},{})", if i > 0 { "," } else { "" }, b.0, b.1, b.2);
+        }
+        s.push_str("]T[");
+        for (i, t) in self.txs.iter().enumerate() {
+            let _ = write!(s, "{}({},{})", if i > 0 { "," } else { "" }, t.0, t.1);
+        }
+        s.push_str("]R[");
+        for (i, r) in self.roots.iter().enumerate() {
+            let _ = write!(s, "{}({},{},{})", if i > 0 { "," } else { "" }, r.0, r.1, r.2);
+        }
+        s.push_str("]L[");
+        for (i, r) in self.legacy.iter().enumerate() {
+            let _ = write!(s, "{}({},{},{})", if i > 0 { "," } else { "" }, r.0, r.1, r.2);
+        }
+        s.push(']');
+        s
+    }
+    fn summary(&self) -> String {
+        let h = Blake2s256::digest(self.text().as_bytes());
+        format!(
+            "n={};hi={};r={};l={};h={}",
+            self.blocks.len(),
+            self.blocks.iter().map(|b| b.1).max().map(|x| x.to_string()).unwrap_or("-".into()),
+            self.roots.len(),
+            self.legacy.len(),
+            hex::encode(&h[..4])
+        )
+    }
+}
+
+struct Node {
+    rt: Arc<tokio::runtime::Runtime>,
+    db_path: PathBuf,
+    repo: Arc<SignerCardanoChainDataRepository>,
+    store: Arc<Recorder>,
+    importer: Arc<CardanoChainDataImporter>,
+    sim: Arc<Mutex<Sim>>,
+    max_per_poll: usize,
+}
+
+fn open_repo(path: &Path) -> Arc<SignerCardanoChainDataRepository> {
+    let pool = ConnectionBuilder::open_file(path)
+        .with_options(&[ConnectionOptions::EnableForeignKeys, ConnectionOptions::EnableWriteAheadLog])
+        .with_migrations(cardano_transaction_migration::get_migrations())
+        .build_pool(1)
+        .unwrap();
+    Arc::new(SignerCardanoChainDataRepository::new(Arc::new(pool)))
+}
+
+impl Node {
+    fn new(rt: Arc<tokio::runtime::Runtime>, scratch: &Path, template: &Path, sim: Arc<Mutex<Sim>>, max_per_poll: usize) -> Node {
+        let db_path = scratch.join(format!("db-{}.sqlite3", DB_COUNTER.fetch_add(1, Ordering::SeqCst)));
+        std::fs::copy(template, &db_path).unwrap();
+        let (repo, store, importer) = Node::wire(&db_path, &sim, max_per_poll);
+        Node { rt, db_path, repo, store, importer, sim, max_per_poll }
+    }
+    fn wire(db_path: &Path, sim: &Arc<Mutex<Sim>>, max_per_poll: usize) -> (Arc<SignerCardanoChainDataRepository>, Arc<Recorder>, Arc<CardanoChainDataImporter>) {
+        let repo = open_repo(db_path);
+        let store = Arc::new(Recorder { inner: repo.clone(), ops: Mutex::new(vec![]), rollbacks: Mutex::new(vec![]) });
+        let reader: Arc<tokio::sync::Mutex<dyn ChainBlockReader>> = Arc::new(tokio::sync::Mutex::new(Reader { sim: sim.clone() }));
+        let scanner = Arc::new(CardanoBlockScanner::new(reader, max_per_poll, logger()));
+        let importer = Arc::new(CardanoChainDataImporter::new(scanner, store.clone(), logger()));
+        (repo, store, importer)
+    }
+    /// process restart: new importer (no in-memory cursor), new repository on the same file, new connection
+    fn restart(&mut self) {
+        let (repo, store, importer) = Node::wire(&self.db_path, &self.sim, self.max_per_poll);
+        self.repo = repo;
+        self.store = store;
+        self.importer = importer;
+        self.sim.lock().unwrap().conn = None;
+    }
+    fn import(&self, target: u64) -> String {
+        QUIET.store(true, Ordering::SeqCst);
+        let imp = self.importer.clone();
+        let r = self.rt.block_on(async move { imp.import(BlockNumber(target)).await });
+        QUIET.store(false, Ordering::SeqCst);
+        match r {
+            Ok(()) => "ok".into(),
+            Err(e) => {
+                let t = format!("{:?}", e);
+                if t.contains("worker thread crashed") || t.contains("panicked") {
+                    "panic".into()
+                } else {
+                    "err".into()
+                }
+            }
+        }
+    }
+    fn prune(&self, keep: u64) {
+        let repo = self.repo.clone();
+        self.rt.block_on(async move { ChainDataPruner::prune(&*repo, BlockNumber(keep)).await }).unwrap();
+    }
+    fn dump(&self) -> Dump {
+        let repo = self.repo.clone();
+        self.rt.block_on(async move {
+            let mut d = Dump::default();
+            let id_of = |h: &str| u32::from_str_radix(h, 16).unwrap_or(u32::MAX);
+            for b in repo.get_all_blocks().await.unwrap() {
+                d.blocks.push((id_of(&b.block_hash), *b.block_number, *b.slot_number));
+            }
+            d.blocks.sort_by_key(|b| (b.1, b.0));
+            let mut txs: Vec<(u64, String, u32)> =
+                repo.get_all_transactions().await.unwrap().into_iter().map(|t| (*t.block_number, t.transaction_hash, id_of(&t.block_hash))).collect();
+            txs.sort();
+            d.txs = txs.into_iter().map(|t| (t.1, t.2)).collect();
+            for r in repo.get_all_block_range_root().unwrap() {
+                d.roots.push((*r.range.start, *r.range.end, r.merkle_root.to_hex()));
+            }
+            d.roots.sort();
+            for r in repo.get_all_legacy_block_range_root().unwrap() {
+                d.legacy.push((*r.range.start, *r.range.end, r.merkle_root.to_hex()));
+            }
+            d.legacy.sort();
+            d
+        })
+    }
+    /// Merkle root the CardanoBlocksTransactions builder offers for `beacon`; `import_first` = through
+    /// the real importer (the production path), else from the store as it is
+    fn signable_root(&self, beacon: u64, import_first: bool) -> String {
+        let retriever: Arc<dyn BlockRangeRootRetriever<MKTreeStoreInMemory>> = self.repo.clone();
+        let importer: Arc<dyn BlocksTransactionsImporter> = if import_first { Arc::new(ImporterAdapter(self.importer.clone())) } else { Arc::new(NoImport) };
+        let builder = CardanoBlocksTransactionsSignableBuilder::<MKTreeStoreInMemory>::new(importer, retriever);
+        QUIET.store(true, Ordering::SeqCst);
+        let r = self.rt.block_on(async move { builder.compute_protocol_message((BlockNumber(beacon), BlockNumberOffset(0))).await });
+        QUIET.store(false, Ordering::SeqCst);
+        match r {
+            Ok(m) => m.get_message_part(&ProtocolMessagePartKey::CardanoBlocksTransactionsMerkleRoot).cloned().unwrap_or_default(),
+            Err(_) => "err".into(),
+        }
+    }
+    fn legacy_signable_root(&self, beacon: u64, import_first: bool) -> String {
+        let retriever: Arc<dyn LegacyBlockRangeRootRetriever<MKTreeStoreInMemory>> = self.repo.clone();
+        let importer: Arc<dyn TransactionsImporter> = if import_first { Arc::new(ImporterAdapter(self.importer.clone())) } else { Arc::new(NoImport) };
+        let builder = CardanoTransactionsSignableBuilder::<MKTreeStoreInMemory>::new(importer, retriever);
+        QUIET.store(true, Ordering::SeqCst);
+        let r = self.rt.block_on(async move { builder.compute_protocol_message(BlockNumber(beacon)).await });
+        QUIET.store(false, Ordering::SeqCst);
+        match r {
+            Ok(m) => m.get_message_part(&ProtocolMessagePartKey::CardanoTransactionsMerkleRoot).cloned().unwrap_or_default(),
+            Err(_) => "err".into(),
+        }
+    }
+    fn close(self) {
+        let p = self.db_path.clone();
+        drop(self);
+        let _ = std::fs::remove_file(&p);
+        let _ = std::fs::remove_file(p.with_extension("sqlite3-wal"));
+        let _ = std::fs::remove_file(p.with_extension("sqlite3-shm"));
+    }
+}
+
+// ----------------------------------------------------------------------------------------- history
+
+#[derive(Clone, Debug)]
+enum Event {
+    Mutate(Mutation),
+    Import { target: u64, mid: Vec<(usize, Mutation)> },
+    Restart,
+    Reconnect,
+    Prune(u64),
+}
+
+#[derive(Clone, Debug)]
+struct History {
+    max_per_poll: usize,
+    await_sem: bool,
+    events: Vec<Event>,
+}
+
+/// `Good` of the Lean model on one import, mirrored: the class letter of the import
+///   e  early exit (target not above the highest stored block)
+///   p  the store is not a chain (not strictly increasing in number and slot) — an earlier class left it so
+///   x  protocol violation: a forward that does not extend the chain
+///   1  the echo roll-back to the scan's start point is not a no-op
+///   2  a roll-back to a point that is not in the chain known to the node (below / outside the store)
+///   3  the target exceeds the highest block delivered: the last complete range below it is not covered
+///   g  good: the refinement theorem applies
+fn classify(s0: &[(u32, u64, u64)], from_slot: u64, target: u64, replies: &[Reply], after: &[(u32, u64, u64)]) -> char {
+    if let Some(hi) = s0.iter().map(|b| b.1).max() {
+        if hi >= target {
+            return 'e';
+        }
+    }
+    for w in s0.windows(2) {
+        if !(w[0].1 < w[1].1 && w[0].2 < w[1].2) {
+            return 'p';
+        }
+    }
+    let ids: BTreeSet<u32> = s0.iter().map(|b| b.0).collect();
+    if ids.len() != s0.len() {
+        return 'p';
+    }
+    let mut v: Vec<(u32, u64, u64)> = s0.to_vec();
+    let mut lp = false;
+    for r in replies {
+        match r {
+            Reply::Nothing => {}
+            Reply::Fwd(b) => {
+                if !v.iter().all(|x| x.1 < b.number && x.2 < b.slot && x.0 != b.id) {
+                    return 'x';
+                }
+                v.push((b.id, b.number, b.slot));
+                if b.number <= target {
+                    lp = true;
+                }
+            }
+            Reply::Back(s, _) => {
+                if *s == from_slot && !lp {
+                    if !v.iter().all(|x| x.2 <= *s) {
+                        return '1';
+                    }
+                } else {
+                    if !(v.iter().any(|x| x.2 == *s) || v.is_empty()) {
+                        return '2';
+                    }
+                    lp = true;
+                }
+                v.retain(|x| x.2 <= *s);
+            }
+        }
+    }
+    let k = (target + 1) / 15;
+    if k > 0 && !after.iter().any(|b| k * 15 <= b.1 + 1) {
+        return '3';
+    }
+    'g'
+}
+
+fn show_reply(r: &Reply) -> String {
+    match r {
+        Reply::Fwd(b) => format!("(f,{})", b.id),
+        Reply::Back(s, Some(id)) => format!("(b,{},{})", s, id),
+        Reply::Back(s, None) => format!("(b,{},o)", s),
+        Reply::Nothing => "(n)".into(),
+    }
+}
+
+#[derive(Default)]
+struct Outcome {
+    req: String,
+    trace: String,
+    /// (class, what)
+    sfails: Vec<(String, String)>,
+    letters: String,
+    s_checks: u64,
+    s2_checks: u64,
+    taint: Option<String>,
+}
+
+struct Env {
+    rt: Arc<tokio::runtime::Runtime>,
+    scratch: PathBuf,
+    template: PathBuf,
+}
+
+impl Env {
+    /// the real importer run ONCE FROM SCRATCH on `chain` up to `target`
+    fn fresh(&self, chain: &[Blk], target: u64) -> (Dump, Node) {
+        let sim = Arc::new(Mutex::new(Sim::new(chain.to_vec(), false)));
+        let node = Node::new(self.rt.clone(), &self.scratch, &self.template, sim, 100);
+        let _ = node.import(target);
+        (node.dump(), node)
+    }
+}
+
+/// how deep the S comparison goes for one history
+#[derive(Clone, Copy)]
+struct SPlan {
+    /// compare with a fresh import after every import (else: a sample + the last)
+    every: bool,
+    beacons: usize,
+}
+
+fn run_history(env: &Env, h: &History, rng: &mut Rng, plan: SPlan) -> Outcome {
+    let mut out = Outcome::default();
+    let sim = Arc::new(Mutex::new(Sim::new(vec![], h.await_sem)));
+    let mut node = Node::new(env.rt.clone(), &env.scratch, &env.template, sim.clone(), h.max_per_poll);
+    let mut steps: Vec<String> = vec![];
+    let mut trace: Vec<String> = vec![];
+    let mut blocks_seen: BTreeMap<u32, Blk> = BTreeMap::new();
+    let mut dump = Dump::default();
+    let mut pruned_below: u64 = 0;
+    let n_imports = h.events.iter().filter(|e| matches!(e, Event::Import { .. })).count();
+    let mut import_idx = 0;
+    let sample: BTreeSet<usize> = if plan.every { (0..n_imports).collect() } else { (0..2).map(|_| rng.below(n_imports.max(1) as u64) as usize).chain([n_imports.saturating_sub(1)]).collect() };
+    let mut stopped = false;
+    for ev in &h.events {
+        if stopped {
+            break;
+        }
+        match ev {
+            Event::Mutate(m) => sim.lock().unwrap().apply(m),
+            Event::Reconnect => sim.lock().unwrap().conn = None,
+            Event::Restart => {
+                node.restart();
+                steps.push("(r)".into());
+                trace.push(format!("R;{}", dump.summary()));
+            }
+            Event::Prune(k) => {
+                // threshold as the repository computes it (for the class predicate only)
+                let hi_new = dump.roots.iter().map(|r| r.0).max();
+                let hi_leg = dump.legacy.iter().map(|r| r.0).max();
+                let thr = match (hi_new, hi_leg) {
+                    (Some(a), Some(b)) => Some(a.min(b)),
+                    (a, b) => a.or(b),
+                };
+                if let Some(t) = thr {
+                    pruned_below = pruned_below.max(t.saturating_sub(*k));
+                }
+                node.prune(*k);
+                dump = node.dump();
+                steps.push(format!("(p,{})", k));
+                trace.push(format!("P{};{}", k, dump.summary()));
+            }
+            Event::Import { target, mid } => {
+                {
+                    let mut s = sim.lock().unwrap();
+                    s.replies.clear();
+                    s.set_points.clear();
+                    s.schedule = mid.clone();
+                }
+                node.store.ops.lock().unwrap().clear();
+                node.store.rollbacks.lock().unwrap().clear();
+                let before = dump.clone();
+                let res = node.import(*target);
+                let (replies, set_points) = {
+                    let mut s = sim.lock().unwrap();
+                    // the chain moved on whether or not the importer looked
+                    let rest: Vec<Mutation> = s.schedule.drain(..).map(|x| x.1).collect();
+                    for m in rest {
+                        s.apply(&m);
+                    }
+                    (s.replies.clone(), s.set_points.clone())
+                };
+                if res == "panic" {
+                    // the worker thread died: reopen the database as a restarted process would
+                    node.restart();
+                }
+                dump = node.dump();
+                for r in &replies {
+                    if let Reply::Fwd(b) = r {
+                        blocks_seen.insert(b.id, b.clone());
+                    }
+                }
+                let from = match set_points.first() {
+                    None => "skip".to_string(),
+                    Some((_, None)) => "origin".to_string(),
+                    Some((s, Some(id))) => format!("{}.{}", s, id),
+                };
+                let from_slot = set_points.first().map(|p| p.0).unwrap_or(0);
+                let letter = classify(&before.blocks, from_slot, *target, &replies, &dump.blocks);
+                out.letters.push(letter);
+                // class predicates on the real store's roll-backs
+                let rbs = node.store.rollbacks.lock().unwrap().clone();
+                let mut cls: Option<&str> = match letter {
+                    '1' => Some("skip-rollback-to-start"),
+                    '2' => Some("rollback-below-store"),
+                    '3' => Some("partial-range-root"),
+                    'x' => Some("protocol-violation"),
+                    _ => None,
+                };
+                for (_slot, _lowest, anchor) in &rbs {
+                    if let Some(a) = anchor {
+                        if (a / 15) * 15 < pruned_below && cls.is_none() {
+                            cls = Some("rollback-into-pruned-range");
+                        }
+                    }
+                }
+                if out.taint.is_none() {
+                    if let Some(c) = cls {
+                        out.taint = Some(c.to_string());
+                    }
+                }
+                steps.push(format!("(i,{},[{}])", target, replies.iter().map(show_reply).collect::<Vec<_>>().join(",")));
+                let ops = node.store.ops.lock().unwrap().join(",");
+                trace.push(format!("i{}:{};from={};ops=[{}];c={};{}", target, res, from, ops, letter, dump.summary()));
+                if res != "ok" {
+                    stopped = true;
+                    if out.taint.is_none() {
+                        out.sfails.push(("import-failed".into(), format!("import({}) = {} on a history without a classified event", target, res)));
+                    }
+                    continue;
+                }
+                // ---------------------------------------------------------------- S
+                let check_here = sample.contains(&import_idx);
+                import_idx += 1;
+                if !check_here {
+                    continue;
+                }
+                let canon: Vec<Blk> = sim.lock().unwrap().chain.clone();
+                let (fd, fnode) = env.fresh(&canon, *target);
+                fnode.close();
+                out.s_checks += 1;
+                let early = letter == 'e';
+                let lowest_kept = dump.blocks.first().map(|b| b.1).unwrap_or(0);
+                let (a_blocks, a_txs, a_roots, a_legacy, f_blocks, f_txs) = if early {
+                    let keep_ids: BTreeSet<u32> = dump.blocks.iter().filter(|b| b.1 <= *target).map(|b| b.0).collect();
+                    (
+                        dump.blocks.iter().filter(|b| b.1 <= *target).cloned().collect::<Vec<_>>(),
+                        dump.txs.iter().filter(|t| keep_ids.contains(&t.1)).cloned().collect::<Vec<_>>(),
+                        dump.roots.iter().filter(|r| r.1 <= *target + 1).cloned().collect::<Vec<_>>(),
+                        dump.legacy.iter().filter(|r| r.1 <= *target + 1).cloned().collect::<Vec<_>>(),
+                        fd.blocks.iter().filter(|b| b.1 >= lowest_kept || pruned_below == 0).cloned().collect::<Vec<_>>(),
+                        fd.txs.clone(),
+                    )
+                } else {
+                    (dump.blocks.clone(), dump.txs.clone(), dump.roots.clone(), dump.legacy.clone(), fd.blocks.iter().filter(|b| b.1 >= lowest_kept || pruned_below == 0).cloned().collect::<Vec<_>>(), fd.txs.clone())
+                };
+                let f_ids: BTreeSet<u32> = f_blocks.iter().map(|b| b.0).collect();
+                let f_txs: Vec<(String, u32)> = f_txs.into_iter().filter(|t| f_ids.contains(&t.1)).collect();
+                let mut diffs = vec![];
+                if a_blocks != f_blocks {
+                    diffs.push(format!("blocks differ: stored {:?} vs fresh {:?}", first_diff(&a_blocks, &f_blocks), first_diff(&f_blocks, &a_blocks)));
+                }
+                if a_txs != f_txs {
+                    diffs.push("transactions differ".to_string());
+                }
+                if a_roots != fd.roots {
+                    diffs.push(format!("block-range roots differ: stored {:?} vs fresh {:?}", first_diff(&a_roots, &fd.roots), first_diff(&fd.roots, &a_roots)));
+                }
+                if a_legacy != fd.legacy {
+                    diffs.push(format!("legacy block-range roots differ: stored {:?} vs fresh {:?}", first_diff(&a_legacy, &fd.legacy), first_diff(&fd.legacy, &a_legacy)));
+                }
+                if !diffs.is_empty() {
+                    let canon_ids: BTreeSet<u32> = canon.iter().map(|b| b.id).collect();
+                    let stale = early && dump.blocks.iter().any(|b| b.1 <= *target && !canon_ids.contains(&b.0));
+                    let class = out.taint.clone().unwrap_or_else(|| if stale { "stale-noop-import".into() } else { "diverged".into() });
+                    out.sfails.push((class, format!("after import({}) [{}]: {}", target, letter, diffs.join("; "))));
+                }
+                // (2) signable roots do not depend on how far beyond the beacon the node imported
+                let hi = dump.blocks.iter().map(|b| b.1).max().unwrap_or(0).min(*target);
+                let mut beacons: Vec<u64> = vec![];
+                for _ in 0..plan.beacons {
+                    beacons.push(rng.range(0, hi));
+                }
+                for b in beacons {
+                    out.s2_checks += 1;
+                    let mine = node.signable_root(b, false);
+                    let fsim = Arc::new(Mutex::new(Sim::new(canon.clone(), false)));
+                    let fnode = Node::new(env.rt.clone(), &env.scratch, &env.template, fsim, 100);
+                    let theirs = fnode.signable_root(b, true);
+                    let aligned = (b + 1) % 15 == 0;
+                    let (lm, lt) = if aligned { (node.legacy_signable_root(b, false), fnode.legacy_signable_root(b, false)) } else { (String::new(), String::new()) };
+                    fnode.close();
+                    if mine != theirs || lm != lt {
+                        let partial = (b + 1) % 15 != 0;
+                        let inside = partial && dump.roots.iter().any(|r| r.0 <= b && b < r.1);
+                        let canon_ids: BTreeSet<u32> = canon.iter().map(|x| x.id).collect();
+                        let stale = dump.blocks.iter().any(|x| x.1 <= b && !canon_ids.contains(&x.0));
+                        let class = out.taint.clone().unwrap_or_else(|| {
+                            if stale && early {
+                                "stale-noop-import".into()
+                            } else if inside && lm == lt {
+                                "beacon-inside-stored-range".into()
+                            } else {
+                                "signable-root-diverged".into()
+                            }
+                        });
+                        out.sfails.push((class, format!("beacon {} after import({}): signable root {} / legacy {} but a node that imports exactly to the beacon has {} / {}", b, target, mine, lm, theirs, lt)));
+                    }
+                }
+            }
+        }
+    }
+    let final_dump = dump.text();
+    node.close();
+    let mut blocks = String::from("[");
+    for (i, b) in blocks_seen.values().enumerate() {
+        let _ = write!(blocks, "{}({},{},{},{})", if i > 0 { "," } else { "" }, b.id, b.number, b.slot, b.ntx);
+    }
+    blocks.push(']');
+    out.req = format!("c13.run max={} blocks={} steps=[{}]", h.max_per_poll, blocks, steps.join(","));
+    out.trace = format!("{} D={}", trace.join(" "), final_dump);
+    out
+}
+
+fn first_diff<T: PartialEq + Clone + std::fmt::Debug>(a: &[T], b: &[T]) -> Option<T> {
+    a.iter().find(|x| !b.contains(x)).cloned()
+}
+
+// --------------------------------------------------------------------------------------- generator
+
+struct Gen {
+    chain: Vec<Blk>,
+    next_id: u32,
+    sparse: bool,
+    tx_rate: u64,
+}
+
+impl Gen {
+    fn new_blocks(&mut self, rng: &mut Rng, after: Option<&Blk>, n: usize) -> Vec<Blk> {
+        let mut out = vec![];
+        let (mut number, mut slot) = match after {
+            Some(b) => (b.number, b.slot),
+            None => (if rng.bool() { 0 } else { u64::MAX }, 0), // first block numbered 1 or 0
+        };
+        for _ in 0..n {
+            number = number.wrapping_add(if self.sparse && rng.chance(1, 6) { rng.range(2, 20) } else { 1 });
+            slot += rng.range(1, 4);
+            let ntx = if rng.below(100) < self.tx_rate { rng.range(1, 3) as u8 } else { 0 };
+            out.push(Blk { id: self.next_id, number, slot, ntx });
+            self.next_id += 1;
+        }
+        out
+    }
+    fn grow(&mut self, rng: &mut Rng, n: usize) -> Mutation {
+        let last = self.chain.last().cloned();
+        let bs = self.new_blocks(rng, last.as_ref(), n);
+        self.chain.extend(bs.iter().cloned());
+        Mutation::Grow(bs)
+    }
+    fn switch(&mut self, rng: &mut Rng, keep: usize, n: usize) -> Mutation {
+        let keep = keep.min(self.chain.len());
+        self.chain.truncate(keep);
+        let last = self.chain.last().cloned();
+        let bs = self.new_blocks(rng, last.as_ref(), n);
+        self.chain.extend(bs.iter().cloned());
+        Mutation::Switch { keep, blocks: bs }
+    }
+    fn tip(&self) -> u64 {
+        self.chain.last().map(|b| b.number).unwrap_or(0)
+    }
+    /// a fork point: number of blocks kept
+    fn pick_keep(&self, rng: &mut Rng, imported_hi: u64) -> usize {
+        let len = self.chain.len();
+        if len == 0 {
+            return 0;
+        }
+        let by_number = |n: u64| self.chain.iter().position(|b| b.number > n).unwrap_or(len);
+        match rng.below(9) {
+            0 => len - 1 - (rng.below(5) as usize).min(len - 1),
+            1 => {
+                // a block-range boundary and its neighbours
+                let k = rng.range(1, (self.tip() / 15).max(1));
+                by_number((k * 15 + rng.below(3)).saturating_sub(2))
+            }
+            2 => 1,                                  // back to the first block
+            3 => 0,                                  // back to the origin
+            4 => by_number(imported_hi),             // exactly the highest imported block
+            5 => by_number(imported_hi.saturating_sub(rng.range(1, 6))),
+            6 => by_number(imported_hi + rng.range(1, 6)),
+            _ => rng.below(len as u64 + 1) as usize,
+        }
+    }
+}
+
+fn gen_history(rng: &mut Rng, thorough: bool) -> History {
+    let max_per_poll = *rng.pick(&[1usize, 2, 3, 5, 10, 30, 100]);
+    let mut g = Gen { chain: vec![], next_id: 1, sparse: rng.chance(1, 6), tx_rate: *rng.pick(&[0u64, 10, 40, 80]) };
+    let pruning = rng.chance(1, 5);
+    let mut events = vec![];
+    let n_events = rng.range(5, if thorough { 80 } else { 40 }) as usize;
+    let max_chain = 120usize;
+    let first = rng.range(1, 50) as usize;
+    events.push(Event::Mutate(g.grow(rng, first)));
+    let mut imported_hi: u64 = 0;
+    let mut last_target: u64 = 0;
+    for _ in 0..n_events {
+        let room = max_chain.saturating_sub(g.chain.len());
+        let w = rng.below(100);
+        if w < 34 {
+            // import
+            let tip = g.tip();
+            let target = match rng.below(12) {
+                0 => tip,
+                1 => tip.saturating_sub(rng.below(10)),
+                2 => tip + rng.range(1, 30),
+                3 => last_target,
+                4 => last_target.saturating_sub(rng.range(1, 20)),
+                5 => (tip / 15 * 15).saturating_sub(1),
+                6 => tip / 15 * 15,
+                7 => tip / 15 * 15 + 1,
+                8 => imported_hi + rng.range(1, 2 * max_per_poll as u64 + 1),
+                9 => imported_hi + max_per_poll as u64,
+                _ => rng.range(imported_hi, tip.max(imported_hi) + 3),
+            };
+            let mut mid = vec![];
+            if rng.chance(2, 5) {
+                let mut gm = Gen { chain: g.chain.clone(), next_id: g.next_id, sparse: g.sparse, tx_rate: g.tx_rate };
+                for _ in 0..rng.range(1, 2) {
+                    let at = rng.below(2 * max_per_poll as u64 + 8) as usize;
+                    let room = max_chain.saturating_sub(gm.chain.len());
+                    let m = if rng.bool() && room > 0 {
+                        let n = rng.range(1, room.min(12) as u64) as usize;
+                        gm.grow(rng, n)
+                    } else {
+                        let keep = gm.pick_keep(rng, imported_hi);
+                        let room = max_chain.saturating_sub(keep);
+                        let n = rng.below(room.min(10) as u64 + 1) as usize;
+                        gm.switch(rng, keep, n)
+                    };
+                    mid.push((at, m));
+                }
+                mid.sort_by_key(|x| x.0);
+                // the generator's chain follows the order in which the simulator applies them (by reply index)
+                let mut g2 = Gen { chain: g.chain.clone(), next_id: gm.next_id, sparse: g.sparse, tx_rate: g.tx_rate };
+                for (_, m) in &mid {
+                    match m {
+                        Mutation::Grow(bs) => g2.chain.extend(bs.iter().cloned()),
+                        Mutation::Switch { keep, blocks } => {
+                            g2.chain.truncate(*keep);
+                            g2.chain.extend(blocks.iter().cloned());
+                        }
+                    }
+                }
+                g.chain = g2.chain;
+                g.next_id = g2.next_id;
+            }
+            events.push(Event::Import { target, mid });
+            imported_hi = imported_hi.max(target.min(g.tip()));
+            last_target = target;
+        } else if w < 58 {
+            if room > 0 {
+                let n = (*rng.pick(&[1u64, 1, 2, 5, 14, 15, 16, 31, 60, 100])).min(room as u64) as usize;
+                events.push(Event::Mutate(g.grow(rng, n)));
+            }
+        } else if w < 80 {
+            let keep = g.pick_keep(rng, imported_hi);
+            let room = max_chain.saturating_sub(keep);
+            let n = if rng.chance(1, 8) { 0 } else { rng.range(1, room.min(25).max(1) as u64) as usize };
+            events.push(Event::Mutate(g.switch(rng, keep, n.min(room))));
+        } else if w < 89 {
+            events.push(Event::Restart);
+        } else if w < 93 {
+            events.push(Event::Reconnect);
+        } else if pruning {
+            events.push(Event::Prune(*rng.pick(&[0u64, 1, 15, 20, 30, 60])));
+        }
+    }
+    // end with an import to the tip so that the last state is a quiescent one
+    events.push(Event::Import { target: g.tip(), mid: vec![] });
+    History { max_per_poll, await_sem: rng.bool(), events }
+}
+
+// ------------------------------------------------------------------------------ witnesses (corpus)
+
+fn chain_of(ids_from: u32, numbers: std::ops::RangeInclusive<u64>, slot_of: impl Fn(u64) -> u64, ntx: u8) -> Vec<Blk> {
+    numbers.enumerate().map(|(i, n)| Blk { id: ids_from + i as u32, number: n, slot: slot_of(n), ntx }).collect()
+}
+
+/// class 1: a real roll-back to the scan's start point after forwards
+fn w_skip() -> History {
+    let p = chain_of(1, 1..=1, |n| n * 10, 0);
+    let b = chain_of(101, 2..=3, |n| n * 10, 0);
+    let c = chain_of(201, 2..=2, |n| n * 10 + 1, 0);
+    History {
+        max_per_poll: 100,
+        await_sem: false,
+        events: vec![
+            Event::Mutate(Mutation::Grow(p)),
+            Event::Import { target: 1, mid: vec![] },
+            Event::Mutate(Mutation::Grow(b)),
+            // the node switches to C while the client is reading: after the echo, B1 and B2
+            Event::Import { target: 3, mid: vec![(3, Mutation::Switch { keep: 1, blocks: c })] },
+        ],
+    }
+}
+
+/// class 2: after a restart the resume point is no longer on the node's chain; the new connection
+/// starts at the origin: `RollBackward(origin)` finds no stored block at or below slot 0
+fn w_below_store(ntx: u8) -> History {
+    let a = chain_of(1, 1..=12, |n| n * 10, 0);
+    let b = chain_of(101, 11..=14, |n| n * 10 + 5, ntx);
+    History {
+        max_per_poll: 100,
+        await_sem: false,
+        events: vec![
+            Event::Mutate(Mutation::Grow(a)),
+            Event::Import { target: 12, mid: vec![] },
+            Event::Mutate(Mutation::Switch { keep: 10, blocks: b }),
+            Event::Restart,
+            Event::Import { target: 14, mid: vec![] },
+        ],
+    }
+}
+
+/// class 2': pruning leaves a range partially stored; a roll-back anchored in it deletes its root,
+/// which is then recomputed from the remaining blocks
+fn w_pruned_range() -> History {
+    let a = chain_of(1, 1..=50, |n| n * 10, 1);
+    let b = chain_of(101, 29..=50, |n| n * 10 + 5, 1);
+    History {
+        max_per_poll: 100,
+        await_sem: false,
+        events: vec![
+            Event::Mutate(Mutation::Grow(a)),
+            Event::Import { target: 50, mid: vec![] },
+            Event::Prune(10), // highest range start 30 - 10 = 20: blocks below 20 go, range [15,30) keeps 20..29
+            Event::Mutate(Mutation::Switch { keep: 28, blocks: b }),
+            Event::Import { target: 51, mid: vec![] },
+        ],
+    }
+}
+
+/// class 3: a target above the delivered tip caches the root of a partially imported range
+fn w_partial_range() -> History {
+    let a = chain_of(1, 1..=20, |n| n * 10, 1);
+    let b = chain_of(21, 21..=50, |n| n * 10, 1);
+    History {
+        max_per_poll: 100,
+        await_sem: false,
+        events: vec![
+            Event::Mutate(Mutation::Grow(a)),
+            Event::Import { target: 40, mid: vec![] },
+            Event::Mutate(Mutation::Grow(b)),
+            Event::Import { target: 50, mid: vec![] },
+        ],
+    }
+}
+
+/// an import whose target does not exceed the highest stored block does not consult the node
+fn w_stale_noop() -> History {
+    let a = chain_of(1, 1..=30, |n| n * 10, 1);
+    let b = chain_of(101, 11..=40, |n| n * 10 + 5, 1);
+    History {
+        max_per_poll: 100,
+        await_sem: false,
+        events: vec![
+            Event::Mutate(Mutation::Grow(a)),
+            Event::Import { target: 30, mid: vec![] },
+            Event::Mutate(Mutation::Switch { keep: 10, blocks: b }),
+            Event::Import { target: 25, mid: vec![] },
+        ],
+    }
+}
+
+/// the blocks-transactions builder uses a stored root of the range CONTAINING a partial beacon
+fn w_beacon_inside() -> History {
+    let a = chain_of(1, 1..=50, |n| n * 10, 1);
+    History { max_per_poll: 100, await_sem: false, events: vec![Event::Mutate(Mutation::Grow(a)), Event::Import { target: 50, mid: vec![] }] }
+}
+
+fn main() {
+    let args = Args::parse();
+    let mut rng = Rng::new(args.seed ^ 0xC13);
+    let mut sink = Sink::new(&args);
+    let default_hook = std::panic::take_hook();
+    std::panic::set_hook(Box::new(move |info| {
+        if !QUIET.load(Ordering::SeqCst) {
+            default_hook(info);
+        }
+    }));
+    let rt = Arc::new(tokio::runtime::Builder::new_multi_thread().worker_threads(2).max_blocking_threads(4).enable_all().build().unwrap());
+    let scratch = std::env::temp_dir().join(format!("verif-c13-{}-{}", std::process::id(), args.seed));
+    let _ = std::fs::remove_dir_all(&scratch);
+    std::fs::create_dir_all(&scratch).unwrap();
+    let template = scratch.join("template.sqlite3");
+    drop(open_repo(&template));
+    let env = Env { rt: rt.clone(), scratch: scratch.clone(), template };
+    let full = SPlan { every: true, beacons: 0 };
+
+    let emit = |sink: &mut Sink, tag: &str, o: &Outcome, case: &str, only: Option<usize>| {
+        let idx = sink.case(tag, &o.req, &o.trace);
+        if only.map(|x| x == idx).unwrap_or(true) {
+            for (c, w) in &o.sfails {
+                sink.sfail(idx, c, w, case);
+            }
+        }
+    };
+
+    // ---- corpus: the witnesses of the findings, replayed on the real code every run ---------
+    let mut wr = rng.fork();
+    let o = run_history(&env, &w_skip(), &mut wr, full);
+    let rep = o.sfails.iter().any(|s| s.0 == "skip-rollback-to-start");
+    sink.note("w_skip", &format!("letters={} sfails={:?}", o.letters, o.sfails));
+    emit(&mut sink, "corpus-skip", &o, "witness: roll-back to the scan start after forwards", args.only);
+    let _ = rep;
+
+    for (ntx, id) in [(0u8, "C13-rollback-below-store"), (1u8, "C13-rollback-below-store-panic")] {
+        let o = run_history(&env, &w_below_store(ntx), &mut wr, full);
+        let rep = if ntx == 0 { o.sfails.iter().any(|s| s.0 == "rollback-below-store") } else { o.trace.contains(":panic;") && o.taint.as_deref() == Some("rollback-below-store") };
+        sink.witness(id, rep, &format!("letters={} {}", o.letters, o.sfails.first().map(|s| s.1.clone()).unwrap_or_default()));
+        emit(&mut sink, "corpus-below-store", &o, "witness: roll-back below the lowest stored block", args.only);
+    }
+    {
+        let o = run_history(&env, &w_pruned_range(), &mut wr, full);
+        let rep = o.sfails.iter().any(|s| s.0 == "rollback-into-pruned-range");
+        sink.witness("C13-rollback-into-pruned-range", rep, &format!("letters={} {}", o.letters, o.sfails.first().map(|s| s.1.clone()).unwrap_or_default()));
+        emit(&mut sink, "corpus-pruned-range", &o, "witness: roll-back anchored in a partially pruned range", args.only);
+    }
+    {
+        let o = run_history(&env, &w_partial_range(), &mut wr, full);
+        let rep = o.sfails.iter().any(|s| s.0 == "partial-range-root");
+        sink.witness("C13-partial-range-root", rep, &format!("letters={} {}", o.letters, o.sfails.first().map(|s| s.1.clone()).unwrap_or_default()));
+        emit(&mut sink, "corpus-partial-range", &o, "witness: import target above the delivered tip", args.only);
+    }
+    {
+        let o = run_history(&env, &w_stale_noop(), &mut wr, full);
+        let rep = o.sfails.iter().any(|s| s.0 == "stale-noop-import");
+        sink.witness("C13-stale-noop-import", rep, &format!("letters={} {}", o.letters, o.sfails.first().map(|s| s.1.clone()).unwrap_or_default()));
+        emit(&mut sink, "corpus-stale-noop", &o, "witness: import at or below the highest stored block after a chain switch", args.only);
+    }
+    {
+        let mut o = run_history(&env, &w_beacon_inside(), &mut wr, SPlan { every: true, beacons: 0 });
+        // beacon 40 lies inside the stored range [30,45)
+        let a = chain_of(1, 1..=50, |n| n * 10, 1);
+        let sim = Arc::new(Mutex::new(Sim::new(a.clone(), false)));
+        let far = Node::new(rt.clone(), &scratch, &env.template, sim, 100);
+        far.import(50);
+        let sim2 = Arc::new(Mutex::new(Sim::new(a, false)));
+        let near = Node::new(rt.clone(), &scratch, &env.template, sim2, 100);
+        let r_far = far.signable_root(40, true);
+        let r_near = near.signable_root(40, true);
+        far.close();
+        near.close();
+        let rep = r_far != r_near;
+        if rep {
+            o.sfails.push(("beacon-inside-stored-range".into(), format!("beacon 40: a node that imported to 50 offers {} and a node that imports to 40 offers {}", r_far, r_near)));
+        }
+        sink.witness("C13-beacon-inside-stored-range", rep, &format!("imported-to-50={} imported-to-40={}", r_far, r_near));
+        emit(&mut sink, "corpus-beacon-inside", &o, "witness: partial beacon inside a stored block range", args.only);
+    }
+
+    // ---- generated histories -------------------------------------------------------------------
+    let n = args.extra.get("n").and_then(|x| x.parse().ok()).unwrap_or(if args.thorough() { 12_000 } else { 900 });
+    let mut letters: BTreeMap<char, u64> = BTreeMap::new();
+    let (mut s1, mut s2, mut tainted) = (0u64, 0u64, 0u64);
+    for i in 0..n {
+        let mut r = rng.fork();
+        let h = gen_history(&mut r, args.thorough());
+        if !sink.wanted() {
+            sink.skip();
+            continue;
+        }
+        let plan = SPlan { every: i % 10 == 0, beacons: if i % 3 == 0 { 2 } else { 0 } };
+        let o = run_history(&env, &h, &mut r, plan);
+        for c in o.letters.chars() {
+            *letters.entry(c).or_insert(0) += 1;
+        }
+        s1 += o.s_checks;
+        s2 += o.s2_checks;
+        if o.taint.is_some() {
+            tainted += 1;
+        }
+        let tag = match &o.taint {
+            Some(t) => format!("hist-{}", t),
+            None => "hist-good".to_string(),
+        };
+        emit(&mut sink, &tag, &o, &format!("history {} (seed {}): {}", i, args.seed, o.req), args.only);
+    }
+    sink.note("import_class_letters", &format!("{:?}", letters));
+    sink.note("S1_fresh_import_comparisons", &s1.to_string());
+    sink.note("S2_signable_root_comparisons", &s2.to_string());
+    sink.note("histories_with_a_classified_event", &tainted.to_string());
+    let _ = std::fs::remove_dir_all(&scratch);
+    sink.finish();
+}
